@@ -19,6 +19,7 @@ from ufl.classes import (
     Index,
     Label,
     MultiIndex,
+    Zero,
 )
 from ufl.core.ufl_type import UFLObject
 from ufl.corealg.traversal import traverse_unique_terminals, unique_post_traversal
@@ -41,6 +42,17 @@ def compute_multiindex_hashdata(expr, index_numbering):
     return tuple(data)
 
 
+def compute_zero_hashdata(expr, index_numbering):
+    """Compute hashdata of a Zero with free indices.
+
+    The free indices are stored as raw Index counts, which depend on the
+    global index counter: number them like the indices in a MultiIndex.
+    """
+    indices = MultiIndex(tuple(Index(count) for count in expr.ufl_free_indices))
+    data = compute_multiindex_hashdata(indices, index_numbering)
+    return f"Zero({expr.ufl_shape!r}, {data!r}, {expr.ufl_index_dimensions!r})"
+
+
 def compute_terminal_hashdata(expressions, renumbering):
     """Compute terminal hashdata."""
     if not isinstance(expressions, list):
@@ -58,6 +70,9 @@ def compute_terminal_hashdata(expressions, renumbering):
                 # Indices need a canonical numbering for a stable
                 # signature, thus this algorithm
                 data = compute_multiindex_hashdata(expr, index_numbering)
+
+            elif isinstance(expr, Zero) and expr.ufl_free_indices:
+                data = compute_zero_hashdata(expr, index_numbering)
 
             elif isinstance(expr, ConstantValue):
                 data = expr._ufl_signature_data_(renumbering)
